@@ -16,7 +16,24 @@
 #include <zix/path.h>
 #include <zix/string_view.h>
 
+#include "index_range.h" // /repo/src: the internal {begin,end} index pairs every scanner computes
+
 #include <stdbool.h>
+
+// The theorems are about unbounded indices; the tie to the code needs every index the code stores to be a
+// full size_t (64-bit here).  A narrower field would make strings of 4 GiB and more wrap silently.
+#ifndef C10_NO_LAYOUT_ASSERT
+_Static_assert(sizeof(size_t) == 8, "C10 layout: the model assumes a 64-bit size_t");
+_Static_assert(sizeof(((ZixIndexRange*)0)->begin) == sizeof(size_t) &&
+                 sizeof(((ZixIndexRange*)0)->end) == sizeof(size_t),
+               "C10 layout: ZixIndexRange.begin/end are narrower than size_t");
+_Static_assert(sizeof(((ZixStringView*)0)->length) == sizeof(size_t) &&
+                 sizeof(((ZixStringView*)0)->data) == sizeof(char*),
+               "C10 layout: ZixStringView.length is narrower than size_t");
+_Static_assert((__typeof__(((ZixIndexRange*)0)->begin))-1 > 0 &&
+                 (__typeof__(((ZixStringView*)0)->length))-1 > 0,
+               "C10 layout: an index field became signed");
+#endif
 
 typedef ZixStringView (*ViewFunc)(const char*);
 typedef bool (*QueryFunc)(const char*);
